@@ -27,9 +27,10 @@ MODULE = 'PyTough.Props.C15'
 TARGETS = ['PyTough.Props.C15', 'drv_c15']
 THEOREMS = ['Props.C15.' + t for t in [
     'bounds_cowat', 'bounds_cowat_off', 'bounds_supst', 'bounds_sat', 'bounds_tsat', 'guards_calls_defined',
-    'steam_fraction_in_unit', 'steam_fraction_monotone', 'regions_agree_logic',
+    'steam_fraction_in_unit', 'steam_fraction_monotone', 'steam_fraction_monotone_of_values', 'bounds_tsat_sat',
+    'regions_agree_logic', 'regions_differ_exactly',
 ]]
-LEVEL_TEXT = ('Proof (partial): 9 Lean theorems about definitions regenerated from t2thermo.py on every run, over the reals - the '
+LEVEL_TEXT = ('Proof (partial): 12 Lean theorems about definitions regenerated from t2thermo.py on every run, over the reals - the '
               'decision logic: with range checking on cowat / supst / sat return no value IFF the state is outside the stated range (cowat: or '
               'its internal ZP < 0 test, kept visible), with checking off the guard is vacuous; the guard of tsat; every call made inside a '
               'range test returns a number; the separated steam fraction lies in [0,1] for all inputs and solver results and is non-decreasing '
